@@ -35,6 +35,8 @@ def val_to_json(v):
         return {"k": "tup", "items": [val_to_json(i) for i in v]}
     if isinstance(v, list):
         return {"k": "list", "items": [val_to_json(i) for i in v]}
+    if type(v).__name__ == "Word" and hasattr(v, "letters"):
+        return {"k": "word", "w": list(v.letters)}
     name = getattr(v, "_verif_name", None)
     kind = getattr(v, "_verif_kind", None)
     if name is not None and kind is not None:
@@ -68,6 +70,8 @@ def json_to_val(j):
         return tuple(json_to_val(i) for i in j["items"])
     if k == "list":
         return [json_to_val(i) for i in j["items"]]
+    if k == "word":
+        return envobjs.Word(j["w"])
     if k == "fn":
         return envobjs.FUNCS[j["name"]]
     if k == "obj":
